@@ -31,7 +31,10 @@ def gen_case(rng, tier):
         body = pf.gen_pf(rng, depth=depth, dists=["keyprobe"], max_len=3, nseed_in_loops=False)
     elif mode == "real_distinct":
         d = rng.choice(pf.REAL_CONT)
-        body = pf.gen_pf(rng, depth=depth, dists=[d], max_len=3, nseed_in_loops=False)
+        # no @gen statements here: they also emit the trace score, which is not a draw (for a uniform
+        # site it is the constant log(high-low) at every iteration)
+        body = pf.gen_pf(rng, depth=depth, dists=[d], max_len=3, nseed_in_loops=False,
+                         allow=("site", "scan", "cond", "mvmap", "nseed"))
     else:
         body = pf.gen_pf(rng, depth=min(depth, 2), dists=["normal0"], max_len=2,
                          allow=("site", "scan", "mvmap"))
